@@ -287,19 +287,11 @@ type parseResult struct {
 	timeout bool
 }
 
-// bounded runs f under a wall-clock guard; a parser that does not return within the guard is reported as a hang.
+// bounded runs f under a guard; a parser that does not return is reported as a hang. The guard counts the
+// processor time the process uses, not the time on the wall: under load a heavy but finite parse would otherwise be
+// taken for a hang (it was, twice, with dozens of jobs sharing the machine).
 func bounded(r *run, what string, f func()) (timedOut bool) {
-	done := make(chan struct{})
-	go func() {
-		defer close(done)
-		r.guard("C16", what, f)
-	}()
-	select {
-	case <-done:
-		return false
-	case <-time.After(45 * time.Second):
-		return true
-	}
+	return simrt.Bounded(45*time.Second, func() { r.guard("C16", what, f) })
 }
 
 func runFuzz(t *simrt.Tape, keep bool) simrt.Outcome {
@@ -420,7 +412,7 @@ func runFuzz(t *simrt.Tape, keep bool) simrt.Outcome {
 	}
 	switch {
 	case hung:
-		r.fail("C16", "C16.hang", map[string]string{"parser": parser, "nominimise": "1"}, "%s parser did not return within 45s on a %d byte input (%s)", parser, len(data), origin)
+		r.fail("C16", "C16.hang", map[string]string{"parser": parser, "nominimise": "1"}, "%s parser did not return after 45s of processor time on a %d byte input (%s)", parser, len(data), origin)
 	case r.viol != nil:
 	case okN > limit:
 		r.fail("C16", "C16.no-progress", tags, "%s parser returned %d values without an error from a %d byte input: it does not consume its input", parser, okN, len(data))
